@@ -31,17 +31,24 @@ def shrink(part, case_line, fails):
     case = C.parse_case(case_line)
     improved = True
     rounds = 0
-    while improved and rounds < 12:
+    while improved and rounds < 60:
         improved = False
         rounds += 1
         cands = []
-        for fi, f in enumerate(case):
-            if fi in getattr(part, "NO_SHRINK_FIELDS", ()):
-                continue
-            for j in range(len(f)):
-                c2 = [list(x) for x in case]
-                del c2[fi][j]
-                cands.append(c2)
+        if getattr(part, "SHRINK_FIELDS_FIRST", False):
+            # operation-list cases: drop whole operations first (the last ones first)
+            for fi in range(len(case) - 1, -1, -1):
+                if fi in getattr(part, "NO_SHRINK_FIELDS", ()):
+                    continue
+                cands.append([list(x) for k, x in enumerate(case) if k != fi])
+        if not getattr(part, "SHRINK_FIELDS_ONLY", False):
+            for fi, f in enumerate(case):
+                if fi in getattr(part, "NO_SHRINK_FIELDS", ()):
+                    continue
+                for j in range(len(f)):
+                    c2 = [list(x) for x in case]
+                    del c2[fi][j]
+                    cands.append(c2)
         if hasattr(part, "shrink_candidates"):
             cands = part.shrink_candidates(case) + cands
         if not cands:
